@@ -181,6 +181,8 @@ class Harness(object):
         self.created = set()
         if 'C09' in self.props or 'C14' in self.props or 'C15' in self.props:
             self.check_database('after session end (%s)' % how)
+        if 'C12' in self.primary and how == 'commit':
+            self.check_loaded_ends('after session end (%s)' % how)
 
     def close(self):
         from pony.orm import db_session, rollback
@@ -446,6 +448,11 @@ class Harness(object):
         self.failed_since_db_check += 1
         if isinstance(raised, (AssertionError, KeyError, AttributeError, IndexError, RecursionError)):
             self.bump('internal_error_from_call')
+            if status == 'ok' and kind in ('create', 'assign') and 'C11' in self.primary and isinstance(raised, (KeyError, AssertionError)) \
+                    and _raised_inside_pony(raised):
+                raise Fail('C11', '%s, which the reference store accepts, raised an internal %s inside Pony (%s): the session '
+                                  'key index does not match the objects the session holds'
+                           % (desc, type(raised).__name__, str(raised)[:120]))
         if 'C13' in self.props:
             # drop objects registered by the failed call itself (a failed creation leaves no object)
             after = self.snapshot(depth)
@@ -1099,6 +1106,43 @@ class Harness(object):
                     if end['side'] == 's' and it is o and not end['many']:
                         pass
 
+    def check_loaded_ends(self, where):
+        """C12 for data loaded from the database: every end is read in a session of its own (so that loading one end cannot
+        fill in the other) and both ends must agree."""
+        from pony.orm import db_session
+        st = self.model.committed
+        seen = {}
+        for h in sorted(st.objs):
+            m = st.objs[h]
+            if m['pk'] is None:
+                continue
+            cls = self.classes[m['ent']]
+            for end, rev in self.model.rel_ends_of(m['ent']):
+                with db_session:
+                    o = cls[m['pk']]
+                    val = getattr(o, end['attr'])
+                    items = list(val) if end['many'] else ([] if val is None else [val])
+                    seen[(h, end['attr'])] = set((type(i).__name__, i.get_pk()) for i in items)
+        for h in sorted(st.objs):
+            m = st.objs[h]
+            for end, rev in self.model.rel_ends_of(m['ent']):
+                mine = seen.get((h, end['attr']))
+                if mine is None:
+                    continue
+                for h2 in sorted(st.objs):
+                    m2 = st.objs[h2]
+                    if m2['ent'] != end['target'] or m2['pk'] is None:
+                        continue
+                    back = seen.get((h2, rev['attr']))
+                    if back is None:
+                        continue
+                    a = (m2['ent'], m2['pk']) in mine
+                    b = (m['ent'], m['pk']) in back
+                    if a != b:
+                        raise Fail('C12', '%s: loaded from the database, %s[%r].%s %s %s[%r] but %s[%r].%s %s %s[%r]'
+                                   % (where, m['ent'], m['pk'], end['attr'], 'contains' if a else 'does not contain', m2['ent'], m2['pk'],
+                                      m2['ent'], m2['pk'], rev['attr'], 'contains' if b else 'does not contain', m['ent'], m['pk']))
+
     def check_against_model(self, where):
         """C10/C12: session-visible relationship state equals the reference store (cheap full comparison)"""
         st = self.model.cur
@@ -1134,6 +1178,14 @@ class Harness(object):
             o3 = cls.get(**({'k1': pk[0], 'k2': pk[1]} if isinstance(pk, tuple) else {'id': pk}))
             if o3 is not o:
                 raise Fail('C11', '%s.get(pk=%r) is a different object (h%d)' % (m['ent'], pk, h))
+            for ck in self.model.ents[m['ent']]['ckeys']:
+                vals = {n: m['vals'].get(n) for n in ck}
+                if mode >= 1 and None not in vals.values():
+                    o6 = cls.get(**vals)
+                    if o6 is not o:
+                        raise Fail('C11', '%s.get(%s) returned %s, but h%d holds that composite key'
+                                   % (m['ent'], ', '.join('%s=%r' % kv for kv in sorted(vals.items())),
+                                      None if o6 is None else self.ident(o6), h))
             for sc in self.model.ents[m['ent']]['scalars']:
                 if sc['unique'] and m['vals'].get(sc['name']) is not None and mode >= 1:
                     o4 = cls.get(**{sc['name']: m['vals'][sc['name']]})
@@ -1298,12 +1350,73 @@ class Harness(object):
         finally:
             self.close()
 
+    def probe_reads(self, op, when):
+        """C10: cheap reads issued right before / after a modifying call on the objects it names: cached collection
+        sizes (count / is_empty / len answered from the session) and a relationship-filter query that is repeated
+        with identical parameters (query result cache) must follow the session's own changes."""
+        from pony.orm import select
+        name = op[0]
+        ints = [x for x in op[1:] if isinstance(x, int)]
+        sel = sum(ints) + len(self.trace)
+        st = self.model.cur
+        live = self.model.live(st)
+        if not live:
+            return
+        h = live[(ints[0] if ints else 0) % len(live)]
+        if h not in self.pobj and st.objs[h]['pk'] is None:
+            return
+        ent = st.objs[h]['ent']
+        colls = [(e, r) for e, r in self.model.rel_ends_of(ent) if e['many']]
+        if not colls:
+            return
+        end, rev = colls[(ints[1] if len(ints) > 1 else 0) % len(colls)]
+        if sel % 3 == 0 and when == 'after':
+            return
+        o = self.obj(h)
+        coll = getattr(o, end['attr'])
+        exp = self.model.partners(st, h, end)
+        mode = sel % 4
+        self.bump('probe:%s' % when)
+        if mode == 0:
+            got = coll.count()
+            if got != len(exp):
+                raise Fail('C10', '%s %r: h%d.%s.count() = %d, session state has %d' % (when, op, h, end['attr'], got, len(exp)))
+        elif mode == 1:
+            got = coll.is_empty()
+            if got != (not exp):
+                raise Fail('C10', '%s %r: h%d.%s.is_empty() = %r, session state has %d items' % (when, op, h, end['attr'], got, len(exp)))
+        elif mode == 2:
+            cls = self.classes[ent]
+            targets = self.model.live(st, end['target'])
+            if not targets:
+                return
+            t = targets[(ints[-1] if ints else 0) % len(targets)]
+            if t not in self.pobj and st.objs[t]['pk'] is None:
+                return
+            to = self.obj(t)
+            aname = end['attr']
+            got = set(self.handle_of(x) for x in select(x for x in cls if to in getattr(x, aname)))
+            expq = set(hh for hh in self.model.live(st, ent) if t in self.model.partners(st, hh, end))
+            if got != expq:
+                raise Fail('C10', '%s %r: select(x for x in %s if h%d in x.%s) gives %s, session state says %s'
+                           % (when, op, ent, t, aname, sorted(map(str, got)), sorted(expq)))
+        else:
+            got = len(coll)
+            if got != len(exp):
+                raise Fail('C10', '%s %r: len(h%d.%s) = %d, session state has %d' % (when, op, h, end['attr'], got, len(exp)))
+
     def step(self, op):
         name = op[0]
         if self.doomed and name not in ('flush', 'commit', 'rollback'):
             self.bump('skipped_after_deferred_conflict')
             return
         self.bump('op:' + name)
+        probing = 'C10' in self.primary and name in ('create', 'set', 'setm', 'cadd', 'crem', 'cclear', 'del') \
+            and self.program.get('snap', 0) != 1
+        if probing and self.in_session:
+            self.guard_read(lambda: self.probe_reads(op, 'before'))
+            if not self.in_session:
+                return
         try:
             if name == 'create':
                 self.op_create(op)
@@ -1340,6 +1453,8 @@ class Harness(object):
                     self.guard_read(lambda: self.check_identity((list(op) + [0])[1] % 4))
             else:
                 raise ValueError('unknown op %r' % (op,))
+            if probing and self.in_session:
+                self.guard_read(lambda: self.probe_reads(op, 'after'))
             if name in ('create', 'set', 'setm', 'cadd', 'crem', 'cclear', 'del', 'retake') and self.in_session:
                 if 'C12' in self.props:
                     self.guard_read(lambda: self.check_relationship_ends('after %r' % (op,)))
